@@ -113,6 +113,7 @@ func cmdCheck(args []string) {
 	tier := fs.String("tier", "quick", "quick|thorough")
 	writeLedger := fs.Bool("write-ledger", false, "rewrite the ledger from this run (maintenance only)")
 	keep := fs.Bool("keep", false, "keep smt files")
+	evDir := fs.String("evidence-dir", "", "write evidence and replays below this directory instead of /verif (machinery QA runs)")
 	fs.Parse(args)
 	if *prop == "" {
 		fmt.Fprintln(os.Stderr, "check: -prop required")
@@ -303,7 +304,11 @@ func cmdCheck(args []string) {
 
 	// report violations
 	exit := 0
-	replayDir := filepath.Join(*verif, "replays", *prop)
+	outBase := *verif
+	if *evDir != "" {
+		outBase = *evDir
+	}
+	replayDir := filepath.Join(outBase, "replays", *prop)
 	var violationLines []string
 	if !*writeLedger {
 		for i, f := range failures {
@@ -381,9 +386,9 @@ func cmdCheck(args []string) {
 	if broken != "" {
 		ev["coverage"].(map[string]interface{})["broken"] = broken
 	}
-	os.MkdirAll(filepath.Join(*verif, "evidence"), 0o755)
+	os.MkdirAll(filepath.Join(outBase, "evidence"), 0o755)
 	data, _ := json.MarshalIndent(ev, "", " ")
-	os.WriteFile(filepath.Join(*verif, "evidence", *prop+".json"), append(data, '\n'), 0o644)
+	os.WriteFile(filepath.Join(outBase, "evidence", *prop+".json"), append(data, '\n'), 0o644)
 
 	for _, l := range knownHits {
 		fmt.Println(l)
